@@ -37,6 +37,10 @@ def make_content(kind):
         return NoteContainer(["C", "E", "G"]), [("C", 4), ("E", 4), ("G", 4)]
     if kind == "rest":
         return None, None
+    if kind == "empty_list":
+        return [], []                      # "lists become note containers": an empty one too
+    if kind == "empty_nc":
+        return NoteContainer(), []
     raise engine.HarnessError("unknown content kind %r" % kind)
 
 
@@ -201,7 +205,7 @@ class AccountingSpec(BfsSpec):
         return engine.deep_key(st.bar)
 
 
-CONTENT_FORMS = ["str", "note", "list", "nc", "rest"]
+CONTENT_FORMS = ["str", "note", "list", "nc", "rest", "empty_list", "empty_nc"]
 
 
 class ContentSpec(BfsSpec):
@@ -225,7 +229,7 @@ class ContentSpec(BfsSpec):
         for k in CONTENT_FORMS:
             acts.append(["plus", k])
         for i in (0, -1):
-            for k in ("str", "note", "list", "nc"):
+            for k in ("str", "note", "list", "nc", "empty_list"):
                 acts.append(["setitem", i, k])
         for k in ("note", "nc"):           # explicit octaves only: bare-name voicing is C12's subject
             for i in (0, -1):
